@@ -14,6 +14,9 @@ TInit == l = 1 /\ X = [e |-> "none"] /\ InitHW
 TStep == l <= NLines /\ l' = l + 1 /\ Consumed(l) /\ X' = Ev
 TSpec == TInit /\ [][TStep]_tvars
 
+\* SubscriptionScope (Scope.tla): once Close has returned, nothing the scope accepted is still subscribed and nothing new is accepted
+ScopeT == X.e = "scope" => (X.countAfterClose = 0 /\ X.deliveredAfterClose = 0 /\ ~X.trackAfterCloseAccepted)
+
 M == X.e = "mux"
 St == X.steps
 Idx(op, p) == {k \in 1..Len(St) : St[k].op = op /\ St[k].post = p}
